@@ -228,12 +228,15 @@ fn c05_bridge_merge_leaf_arms() {
 }
 
 // ---- C05: primitive merge (e.g. min / max / or): evaluated on (cur,new), failure panics and keeps cur
+// NOT RUN by any tier (c05x_): every harness in which `run` recurses into an argument vector
+// (`args.iter().map(|a| a.run(..)).collect()`) did not finish under CBMC (> 15 min, 4-6 GB), also with a
+// pushed Vec, unwind 4 and concrete operands.  The Primitive and Function arms are outside the C05 claim.
 #[kani::proof]
 #[kani::unwind(7)]
 #[kani::stub(crate::core_relations::ExecutionState::stage_insert, rec_stage_insert)]
 #[kani::stub(crate::core_relations::ExecutionState::call_external_func, rec_call_external)]
 #[kani::stub(TableAction::lookup_or_insert, rec_lookup_or_insert)]
-fn c05_bridge_merge_primitive() {
+fn c05x_bridge_merge_primitive_not_run() {
     let cur: u32 = kani::any();
     let new: u32 = kani::any();
     let ts: u32 = kani::any();
@@ -281,7 +284,7 @@ fn c05_bridge_merge_primitive() {
 #[kani::stub(crate::core_relations::ExecutionState::stage_insert, rec_stage_insert)]
 #[kani::stub(crate::core_relations::ExecutionState::call_external_func, rec_call_external)]
 #[kani::stub(TableAction::lookup_or_insert, rec_lookup_or_insert)]
-fn c05t_bridge_merge_nested_primitive() {
+fn c05x_bridge_merge_nested_primitive_not_run() {
     let cur: u32 = kani::any();
     let new: u32 = kani::any();
     let ts: u32 = kani::any();
